@@ -45,6 +45,13 @@ func (c08) Gen(seed int64, tier string, avoid []string) *Plan {
 	if tier == "thorough" {
 		n = pick(r, 40, 400, 2000)
 	}
+	// a long, perfectly in-order history that crosses the sequence wrap (more than 2^15 packets) before the
+	// first loss: whatever the stream log remembers about "the last number" must still be right then
+	long := !cfg.Interceptor && chance(r, 20)
+	if long {
+		cfg.Streams = 1
+		n = 33000 + r.Intn(3000)
+	}
 	type arr struct {
 		s     int
 		u, at int64
@@ -63,18 +70,25 @@ func (c08) Gen(seed int64, tier string, avoid []string) *Plan {
 		dupP := pick(r, 0, 0, 40, 150)
 		reoP := pick(r, 0, 0, 100, 300)
 		spacing := int64(pick(r, 200, 1000, 5000, 20000))
+		if long {
+			u, spacing = int64(40000+r.Intn(20000)), 200
+		}
 		at := int64(r.Intn(1000)) + 1
 		for i := 0; i < n; i++ {
 			at += spacing + int64(r.Intn(int(spacing)))
-			if chance(r, 5) {
+			if !long && chance(r, 5) {
 				at += int64(pick(r, 2_000_000, 9_000_000, 70_000_000))
 			}
 			cur := u
 			u++
-			if chance(r, 5) {
+			if !long && chance(r, 5) {
 				u += int64(pick(r, 3, 50, 700))
 			}
-			if chance(r, dropP) {
+			if long && i < n-60 {
+				arrs = append(arrs, arr{s, cur, at}) // in order, nothing lost, until the last 60 packets
+				continue
+			}
+			if chance(r, dropP) || (long && i == n-60) {
 				continue
 			}
 			t := at
@@ -100,6 +114,9 @@ func (c08) Gen(seed int64, tier string, avoid []string) *Plan {
 			o.Err = true
 		}
 		ops = append(ops, o)
+		if long && len(ops)%97 != 0 && a.u < arrs[len(arrs)-1].u-80 {
+			continue // (a build every ~100 packets is plenty for 33 000 packets)
+		}
 		if !cfg.Interceptor && chance(r, buildP) {
 			bt := a.at + int64(pick(r, 0, 0, 1, 500, 977, 30_000, 8_100_000))
 			if chance(r, 30) {
